@@ -211,4 +211,26 @@ def positHandler : Handler := fun lhs rhs => do
     | _ => throw s!"unknown op {op}"
   | _, _ => throw "arity"
 
+/-- `pconv n1 es1 n2 es2 a => r back` : posit<n2,es2>(posit<n1,es1>) via to_value() + convert -/
+def pconvHandler : Handler := fun lhs rhs => do
+  match lhs, rhs with
+  | [n1s, e1s, n2s, e2s, as], [rs, bs] =>
+    let some n1 := parseNat n1s | throw "n1"
+    let some e1 := parseNat e1s | throw "e1"
+    let some n2 := parseNat n2s | throw "n2"
+    let some e2 := parseNat e2s | throw "e2"
+    let some a := parseHex as | throw "a"
+    let some r := parseHex rs | throw "r"
+    let some b := parseHex bs | throw "back"
+    let m := Posit.convert n2 e2 (decode n1 e1 a)
+    let mb := Posit.convert n1 e1 (decode n2 e2 m)
+    let (ok, why) := convSpec n2 e2 (positVal n1 e1 a) r
+    -- representable source value ⇒ identity; widening then narrowing returns the original
+    let exact := positVal n2 e2 r == positVal n1 e1 a
+    let ok2 := !exact || b == a % 2 ^ n1
+    return { model := s!"{toHex m} {toHex mb}", specOk := ok && ok2,
+             reason := if ok then "exactly representable value did not convert back to the original encoding" else why,
+             tag := if exact then "pconv/exact" else "pconv/rounded", trivial := (positVal n1 e1 a).isNone }
+  | _, _ => throw "arity"
+
 end UVerif.Driver
